@@ -407,6 +407,11 @@ def evaluate__abs(self: XPathFunction, context: ta.ContextType = None) \
     elif isinstance(item, float) and math.isnan(item):
         return item
     elif isinstance(item, XPathNode):
+        typed_value = self.data_value(item)
+        if isinstance(typed_value, (float, int, Decimal)) and not isinstance(typed_value, bool):
+            # a typed node: the function is applied to its typed value
+            return cast(NumericType, abs(typed_value))
+
         value = self.string_value(item)
         try:
             return abs(Decimal(value))
